@@ -348,4 +348,34 @@ Plan generate(uint64_t seed, const std::string& focus) {
     return pl;
 }
 
+Plan generate_diff(uint64_t seed) {
+    Plan pl; pl.seed = seed;
+    Rng r = Rng::keyed(seed, "gendiff");
+    Knobs& k = pl.knobs;
+    k.profile = "hostile"; k.focus = "C19diff"; k.variant = (int)r.below(2);
+    k.event_first_p = 0.0;                 // handlers first: the client digests everything it has before the next event
+    k.final_heal = false; k.resolve_delay_max = 0; k.shutdown_delay_max = 0;
+    HostCfg h; h.name = "h0"; k.hosts.push_back(h);
+    k.client.brokers = "h0"; k.client.client_id = "diff";
+    k.client.keep_alive = 0;
+    if (r.chance(0.7)) { Prop p; p.id = P_MAX_PACKET; p.num = (uint32_t)r.pick<int>({64, 100, 128, 256, 1024}); k.client.connect_props.push_back(p); }
+    auto& nk = k.net;
+    nk.lat_min = nk.lat_max = 0; nk.write_done_max = 0; nk.write_done_zero_p = 1.0; nk.short_write_p = 0; nk.seg_split_p = 0; nk.connect_lat_max = 0;
+    nk.chunk_mode = 0;
+    auto& bk = k.broker;
+    bk.ack_delay_max = 0; bk.ack_zero_p = 1.0; bk.short_form_p = 0.3; bk.hostile = true;
+    int id = 1;
+    auto push = [&](Step s) { s.id = id++; pl.steps.push_back(std::move(s)); };
+    { Step s; s.kind = SK::Run; push(s); }
+    { Step s; s.kind = SK::Receive; s.a = 60; s.delay = 100 * MS; push(s); }
+    int bursts = (int)r.range(1, 3);
+    for (int b = 0; b < bursts; ++b) {
+        { Step s; s.kind = SK::FHostileWindow; s.a = 1; s.b = (int)r.pick<int>({100, 200, 400}); s.delay = 50 * MS; push(s); }
+        { Step s; s.kind = SK::BrokerBurst; s.a = (int)r.range(2, 12); s.b = (int)r.pick<int>({4, 20, 60, 150}); s.delay = 1 * MS; push(s); }
+        { Step s; s.kind = SK::FHostileWindow; s.a = 0; s.delay = 1 * MS; push(s); }
+    }
+    { Step s; s.kind = SK::Wait; s.delay = 2 * SEC; push(s); }
+    return pl;
+}
+
 } // namespace app
